@@ -6,8 +6,8 @@ ROOT = os.path.dirname(os.path.abspath(__file__))
 # id -> (built, technique, level text, level note, design ref)
 T = {
  'C01': (True, 'exhaustive enumeration + rapid generation of single instructions against a reference SM83 interpreter', "All 8-bit ALU, CB, INC/DEC, accumulator/flag (incl. DAA), POP AF, 16-bit INC/DEC and (thorough) all 2^24 ADD SP,e / LD HL,SP+e input combinations are enumerated completely against an independent x/y/z-decoded reference interpreter; every other opcode is exercised with hundreds of thousands of rapid-generated register/flag/memory states with structured pointers, with a whole-memory shadow comparison for 'changes nothing else'.", "refcpu (the reference interpreter) is trusted; it was written from the opcode documentation in a different decomposition from tetromino's closure tables and agrees with the repository's daa.csv on all 2048 rows. Operands are restricted to plain memory (I/O semantics are other properties).", '§5 C01'),
- 'C02': (True, 'enumeration of opcode x flag nibble and rapid programs against a reference cycle table', 'Every defined opcode x all 16 flag nibbles (both outcomes of every condition) x 64-1024 random states is timed between instruction boundaries against the reference cycle table; tens of thousands of generated programs are run in lock-step comparing the cycle count of every instruction; HALT is timed in the one situation where it has a documented length (IME clear, request pending: one cycle, next instruction starts at once); plus the blargg instr_timing verdict.', 'The cycle table in refcpu is typed in from the SM83 timing reference; STOP, and HALT when it idles, have no fixed length and are excluded.', '§5 C02'),
- 'C03': (True, 'one-hot marker differential per machine cycle against a reference access schedule', 'For each of the 99 opcodes with a data access, rapid draws operand addresses/registers and a marker byte; one run per candidate machine cycle with one-hot operand values identifies the cycle of every read, per-cycle snapshots identify the cycle of every write; plus blargg mem_timing and mem_timing-2 verdicts.', "Immediate-operand fetch cycles are not asserted (the property is about data accesses); documented access cycles come from refcpu's access schedule.", '§5 C03'),
+ 'C02': (True, 'enumeration of opcode x flag nibble and rapid programs against a reference cycle table', 'Every defined opcode x all 16 flag nibbles (both outcomes of every condition) x 64-1024 random states is timed between instruction boundaries against the reference cycle table; tens of thousands of generated programs are run in lock-step comparing the cycle count of every instruction; writes to the registers FF4C-FF7F of the colour model followed by STOP, on cartridges with any colour flag, must leave 14 timed instructions at their documented lengths; HALT is timed in the one situation where it has a documented length (IME clear, request pending: one cycle, next instruction starts at once); plus the blargg instr_timing verdict.', 'The cycle table in refcpu is typed in from the SM83 timing reference; STOP, and HALT when it idles, have no fixed length and are excluded.', '§5 C02'),
+ 'C03': (True, 'one-hot marker differential per machine cycle against a reference access schedule', 'For each of the 99 opcodes with a data access, rapid draws operand addresses/registers and a marker byte; one run per candidate machine cycle with one-hot operand values identifies the cycle of every read, per-cycle snapshots identify the cycle of every write; in a third of the cases the measured instruction runs straight after a register-preserving conditional jump, call or return; plus blargg mem_timing and mem_timing-2 verdicts.', "Immediate-operand fetch cycles are not asserted (the property is about data accesses); documented access cycles come from refcpu's access schedule.", '§5 C03'),
  'C04': (True, 'exhaustive IE x IF x IME enumeration + rapid interrupt programs in lock-step with a reference model', 'All 256 IE x 32 IF x 2 IME combinations at a boundary x 7 following instruction kinds are enumerated, back-to-back re-entry of short handlers (5 bits x 6 handlers, behind a JP or at the vector itself, x re-raise timing) is enumerated, and tens of thousands of generated EI/DI/RETI/IF/IE programs with requests raised at arbitrary machine cycles (single or in bursts from one source) run in lock-step with a reference that models IME, the EI delay, priority, the 5-cycle dispatch, pushed address and IF clearing; plus 8 interrupt ROM verdicts.', "Where a higher-priority request arrives during the 5 dispatch cycles either choice of vector is accepted; instruction semantics are re-synchronised rather than judged (C01's business).", '§5 C04'),
  'C05': (True, 'enumeration of HALT contexts x following opcode x idle length against a reference model', 'HALT under IME {0,1} x request pending / arriving after up to K idle cycles x 5 sources x every defined opcode as the following instruction is enumerated; the halt bug is judged metamorphically (the implementation executing the duplicated byte from PC-1 must agree with its halt-bug run); generated programs mix HALT with EI/DI/IF writes and requests; plus 4 halt ROM verdicts.', 'Wake-up latency with IME=0 is accepted up to 2 cycles; a CB prefix under the halt bug may decode as on hardware (prefix read twice) or as tetromino does (CB xx, then xx again) - nothing else.', '§5 C05'),
  'C06': (False, 'rapid stateful read/write sequences + exhaustive single-write sweep against a reference address map', '', '', '§5 C06'),
@@ -38,25 +38,25 @@ T = {
 def claim(pid, text, note):
     T[pid] = (True, T[pid][1], text, note, T[pid][4])
 
-claim('C06', 'Single-write sweep from power-on (every I/O address x all 256 values; every memory address x 12 values, thorough all 256) and thousands of rapid write/read/run sequences over the whole 64 KiB on ROM-only, MBC1+RAM and MBC5+RAM cartridges are compared read by read with a reference address map (plain regions, echo in both directions, FEA0-FEFF, unmapped I/O, per-register writable/ones masks, LY/DIV never taking the written value, FF46 read-back); a twin machine that receives every operation except the stores to LY must show the same LY and STAT after every step.',
+claim('C06', 'Single-write sweep from power-on (every I/O address x all 256 values; every memory address x 12 values, thorough all 256) and thousands of rapid write/read/run sequences over the whole 64 KiB on ROM-only, MBC1+RAM and MBC5+RAM cartridges are compared read by read with a reference address map (plain regions, echo in both directions, FEA0-FEFF, unmapped I/O, per-register writable/ones masks, LY/DIV never taking the written value, FF46 read-back); a twin machine that receives every operation except the stores to LY must show the same LY and STAT after every step; a third of the cartridges carry a colour flag, stores to the registers of the colour model are sandwiched between plain accesses, and one to three accesses are made while an OAM DMA transfer is in flight.',
       'OBP0/OBP1 bits 0-1 and the sound registers (C18) are not judged here; VRAM/OAM are only touched with the LCD off and outside DMA; TIMA is judged with the timer stopped.')
 claim('C07', 'From 13 machine states (every controller type, LCD on/off, every STAT source selected with LYC = LY, APU on/off with running channels and length counters at 1 on an odd sequencer step, running timer about to overflow, selected clock register, held buttons, an upward frequency sweep armed just below overflow) every I/O address x 16 values (thorough 256) and a boundary-weighted sweep of 0000-FEFF (thorough every address), plus rapid (state, preamble, write) cases: all 64 KiB are read before and after each single write and the changed bits must lie inside the documented effect set of the written address (bit-granular for STAT and NR52).',
       'The effect table is taken from the property statement; reads used for the snapshots are side-effect free in the states used (no CPU running).')
 claim('C08', 'From reset every cartridge type x declared ROM size x control-address variant x all 256 values, every MBC1 (BANK1,BANK2,MODE) triple and MBC5 (low,high) pairs are enumerated, plus rapid write sequences per controller; after every write the page mapped in each window is identified by page signatures and compared with a reference controller, and ROM contents are re-verified after each sequence.',
       'Reference controllers written from Pan Docs; quick tier rotates one cartridge type per controller for the largest ROM sizes.')
-claim('C09', 'Every enable byte x enable-address variant, every bank-select byte x RAM size code, every A000-BFFF address of a ROM-only cartridge, plus rapid bus-level histories per controller (enable, bank select, MBC1 mode, write, read, dump) are compared with a reference cell store (disabled reads FF, banks modulo size, MBC2 512 half-bytes with upper nibble 1, DumpRAM agrees on every written cell).',
+claim('C09', 'Every enable byte x enable-address variant, every bank-select byte x RAM size code (ROM images from 64 KiB to 2 MiB), every A000-BFFF address of a ROM-only cartridge, plus rapid bus-level histories per controller (enable, bank select, MBC1 mode, write, read, dump) are compared with a reference cell store (disabled reads FF, banks modulo size, MBC2 512 half-bytes with upper nibble 1, DumpRAM agrees on every written cell).',
       'Never-written cells and RAM size code 1 beyond its first 2 KiB are not compared.')
 claim('C10', 'All 88 473 600 in-range clock states go through one increment step against the documented carry chain, out-of-range states are checked for width invariants, the time base is measured on real Mapper.EndMachineCycle runs of k*1048576-1/+1 cycles halted and not, and 20 000 rapid histories (advance, latch 00/01 in any order, select, read, write, halt, RAM enable) run against a reference clock.',
       'Latch writes other than exactly 00 then 01 and the successor of an out-of-range counter are not asserted.')
-claim('C11', 'Hostile and well-formed ROM images (every length class, arbitrary headers), every cartridge type x size code x control address x value, rapid access sequences over the whole address space, every sound channel restarted at every phase of its period, and rapid guest programs hammering cartridge registers, DMA, LCDC, APU, OAM pointers and HALT/STOP for up to 60 000 cycles: construction may panic, any later panic is a violation; thorough adds native go fuzzing of image bytes.',
+claim('C11', 'Hostile and well-formed ROM images (every length class, arbitrary headers), every cartridge type x size code x control address x value, rapid access sequences over the whole address space, every sound channel restarted at every phase of its period, the LCD restarted twelve times before V-blank with window and objects at their extremes, and rapid guest programs hammering cartridge registers, DMA, LCDC, APU, OAM pointers and HALT/STOP for up to 60 000 cycles: construction may panic, any later panic is a violation; thorough adds native go fuzzing of image bytes.',
       'Undefined opcodes are never executed (boundary peek): executing one is the deliberate stop. Direct accesses are injected only after the first hardware cycle, the earliest point at which a guest program can make a data access.')
 claim('C13', 'The LCD is switched off at every cycle of selected lines (thorough: all 154) and back on, and thousands of rapid on/off/register-write schedules (including stores to the read-only LY) of 2-6 frames run with LY and STAT mode compared with a reference line/mode counter after every machine cycle and every write; one uninterrupted run of 300 frames (thorough: also 600 after an off/on, and 66 000) is compared the same way.',
       'Reference counter implements exactly the schedule in the statement (first line 2 cycles short, 20/41/53, 114 per line, 154 lines).')
 claim('C14', 'Each single STAT source (or none) x every LYC 0-153 and 154/200/255 x 3-5 frames, plus rapid off/on schedules with stores to LY and a 300-frame uninterrupted run per source: IF bits 0-1 are read and cleared after every machine cycle and compared with the required / allowed / forbidden requests derived from the reference line counter.',
       'OAM source at line 144 and requests at the instant of switch-on are don\'t-cares.')
-claim('C15', 'Thousands of rapid scenes inside the statement\'s preconditions (any tile data, both maps and addressing modes, any scroll/palettes, window at WX 7-166, up to 40 sorted 8x8 objects at any position incl. beyond every edge, <= 10 per line, with dedicated campaigns crowding bands of lines and the frame seam) are rendered for three frames and all 23 040 pixels compared with an independent reference renderer through calibrated grey shades.',
+claim('C15', 'Thousands of rapid scenes inside the statement\'s preconditions (any tile data, both maps and addressing modes, any scroll/palettes, window at WX 7-166, up to 40 sorted 8x8 objects at any position incl. beyond every edge, <= 10 per line, with dedicated campaigns crowding bands of lines and the frame seam) are rendered for three frames (a few scenes: frame 255-258) and all 23 040 pixels compared with an independent reference renderer through calibrated grey shades.',
       'Reference renderer written from Pan Docs; shade->RGBA is calibrated on four flat scenes and must be four distinct values.')
-claim('C16', 'Every source page 00-F1 on four cartridge types, a restart at every cycle of a running transfer (ten page pairs incl. a page and its echo alias), a source byte modified at every cycle, plus 12 000 rapid cases: all of FE00-FEFF and FF46 are read every cycle (OAM FF during cycles 2-160, source bytes from cycle 162; FF46 the last value written); plus whole-machine cases in which a guest program starts the transfer at a drawn LCD phase and polls OAM inside it.',
+claim('C16', 'Every source page 00-F1 on four cartridge types, a restart at every cycle of a running transfer (ten page pairs incl. a page and its echo alias), a source byte modified at every cycle, plus 12 000 rapid cases: all of FE00-FEFF and FF46 are read every cycle (OAM FF during cycles 2-160, source bytes from cycle 162; FF46 the last value written); plus whole-machine cases in which a guest program starts the transfer (from work RAM, or from video RAM while the LCD draws) at a drawn LCD phase and polls OAM inside it.',
       'Cycles 0, 1 and 161 of a transfer and modifications within 2 cycles of a byte\'s copy slot accept either value.')
 claim('C17', 'Pointer-walking programs (16-bit INC/DEC, PUSH/POP, LD through HL+/-, BC, DE) steered through FE00-FEFF run with the LCD switched off at every cycle of a line in every mode (and at power-on), and with the LCD on but scheduled outside mode 2, a quarter of them while a DMA transfer is in flight; OAM must equal a plain-memory model updated only by the program\'s own stores. A second observer puts a loop of register-only instructions INTO OAM and executes it with the LCD on: OAM is watched after every machine cycle through an access-free hook and may change only within two cycles after / one before a mode 2.',
       'With the LCD on, stores during mode 3 accept either value; mode-2 corruption itself is not modelled (allowed by the property).')
@@ -66,7 +66,7 @@ claim('C19', 'Rapid schedules (three NR10 families, per channel and mixed) of le
       'Sequencer grid phase is calibrated on a fresh instance; re-trigger at maximum length, decrease-mode sweep and never-written length counters are candidate sets.')
 claim('C20', 'Rapid register schedules over 1.2-4 emulated seconds with and without outputs: per-cycle sample counting (L = R, 95-clock spacing, 44 149-44 150 pairs per second, none while off/unattached), range and finiteness of every sample, zero when no enabled channel is routed to a side, and a paired-run metamorphic check that a side never depends on a channel not routed to it.',
       'One 149-clock seam per emulated second (44 150 pairs) is accepted as well as the statement\'s 44 149.')
-claim('C21', 'Channels 1-3 x every 11-bit frequency and channel 4 x every NR43 with s <= 13: the observed step times must fit one constant-phase grid of the documented period; the LFSR output stream must satisfy the 15-/7-bit recurrence and have least period 32 767 / 127; the same measurements are repeated in rapid contexts, including channels retuned while running without a trigger (the step in progress must stay on the old grid), channel 1 retuned by its sweep, other channels triggered during the observation, triggers with the frequency registers never written, and measurements on the machine as constructed.',
+claim('C21', 'Channels 1-3 x every 11-bit frequency and channel 4 x every NR43 with s <= 13: the observed step times must fit one constant-phase grid of the documented period; the LFSR output stream must satisfy the 15-/7-bit recurrence and have least period 32 767 / 127; the same measurements are repeated in rapid contexts, including channels retuned while running without a trigger (the step in progress must stay on the old grid), channel 1 retuned by its sweep, other channels triggered during the observation, triggers with the frequency registers never written, measurements on the machine as constructed, and a restart through NR14 alone after the sweep has overflowed.',
       'Delay from trigger to the first step is not asserted; waveform state is observed through the verif hook.')
 claim('C23', 'Rapid direct SB/SC write/read sequences mixed with other I/O traffic including DMA transfers in flight (with writer and, metamorphically, without) and rapid programs storing to SB/SC through every store form run in lock-step with the reference CPU: the writer transcript must equal the reference\'s stores to FF01 after every instruction; plus blargg ROMs with per-instruction store prediction.',
       'Transfer timing and the serial interrupt are not part of the property.')
@@ -75,7 +75,7 @@ claim('C24', 'Every non-empty ROM of the repository\'s test corpus, rapid-genera
       'Undefined opcodes (os.Exit by design) are avoided by a pre-flight on the peeking reference stepping; OAM is digested only outside mode 2 (a mode-2 read through the decoder arms the OAM bug).')
 claim('C25', '2-3 instances over different generated programs (register hammering, or scenes with objects and window) / corpus ROMs, a quarter of them configured with the LCD debug option, are created in a drawn order and stepped in drawn interleavings: cycle-granular on the public-constructor machine (instances created up front or while the others already run; every instance compared after each slice with its solo run - in one case in three computed in a pristine child process - and idle instances checked for not moving) and frame-granular / concurrent through real gameboy.New + runFrame in a child process (per-frame digests, samples, serial compared with solo runs); thorough adds the concurrent mode under the race detector.',
       'Concurrent schedules are whatever the Go runtime interleaves; the deterministic interleaved modes carry the property. A child process that exits (a derailed instance reaching an undefined opcode) is reported as a violation.')
-claim('C26', 'Generated programs poking DIV/TIMA/TAC/DMA/LCDC/IF/IE/APU/MBC registers run for 1-5 frames through the real runFrame and on a reference stepping of the same components in the documented order (complete state compared every frame, samples and serial at the end); per-frame progress of CPU (counting loop), timer (divider), memory (clock ticks, DMA), PPU (phase, VBlank) and audio (sample count) is measured directly for every cartridge type x output configuration x TAC; Run is stopped by window close (requested from the poll hook, or when the program reports a drawn frame - also by programs that have switched the LCD off), cancel from the poll hook, cancel from the serial writer and asynchronous cancel at drawn frames and must return within one further frame with stream, PortAudio, GLFW and speaker channels released.',
+claim('C26', 'Generated programs poking DIV/TIMA/TAC/DMA/LCDC/IF/IE/APU/MBC registers run for 1-5 frames through the real runFrame and on a reference stepping of the same components in the documented order (complete state compared every frame, samples and serial at the end); per-frame progress of CPU (counting loop), timer (divider), memory (clock ticks, DMA), PPU (phase, VBlank) and audio (sample count) is measured directly for every cartridge type x output configuration x TAC; Run is stopped by window close (requested from the poll hook, or when the program reports a drawn frame - also by programs that have switched the LCD off), cancel from the poll hook, cancel from the serial writer, a context that ends like a deadline (DeadlineExceeded) and asynchronous cancel at drawn frames and must return within one further frame with stream, PortAudio, GLFW and speaker channels released.',
       'Stop requests are issued synchronously from inside the emulation thread so the frame they land in is exact; the display and audio back ends are pure-Go fakes compiled against the unmodified display.go and speakers.go.')
 
 def main():
